@@ -406,6 +406,8 @@ func histConfig(g *pkgGen, i int) *genOut {
 	// spellings a packager may want to tidy up - a source with a trailing slash, a destination with a ".." that stays below the
 	// root: whatever is tidied is the build's own copy
 	c.Contents = append(c.Contents, &files.Content{Source: "src/h/", Destination: fmt.Sprintf("/opt/hist%d/tidy-tree", i), Type: "tree"},
+		&files.Content{Source: "src/e", Destination: "", Type: "tree"},
+		&files.Content{Source: "src/lnk2", Destination: fmt.Sprintf("/opt/hist%d/through-two-links", i), Type: "tree"},
 		&files.Content{Source: "src/f2", Destination: fmt.Sprintf("/opt/hist%d/up/../down/f2", i)})
 	// a symbolic link with every file_info field configured whose target exists on the build host (planning looks at
 	// the target: whatever it learns belongs to the build, not to the parsed configuration)
